@@ -62,17 +62,17 @@ DIRECT_OPS = ['map', 'starmap', 'filter', 'accumulate', 'slice', 'partition', 'p
 
 PROFILES = {
     # property -> (node pool, weights of modes, options)
-    'C01': dict(pool=SYNC_OPS, modes=['loopless', 'loopless', 'async'], md=0.3, sinks=['sync']),
+    'C01': dict(pool=SYNC_OPS, modes=['loopless', 'loopless', 'async', 'threaded'], md=0.3, sinks=['sync']),
     'C10': dict(pool=SYNC_OPS + ASYNC_LOSSLESS + LOSSY, modes=['loopless', 'async', 'async'], md=0.85,
                 sinks=['sync', 'native', 'tornado', 'future']),
     'C02': dict(pool=ASYNC_LOSSLESS + ['map', 'filter', 'zip', 'union', 'accumulate', 'sliding_window', 'partition', 'flatten',
                                         'zip_latest', 'combine_latest', 'collect', 'pluck', 'starmap', 'slice', 'unique'],
-                need=ASYNC_LOSSLESS + ['zip', 'union'], modes=['async'], md=0.3,
+                need=ASYNC_LOSSLESS + ['zip', 'union'], modes=['async', 'async', 'async', 'threaded'], md=0.3,
                 sinks=['sync', 'native', 'tornado', 'future']),
     'C03': dict(pool=['buffer', 'map_async', 'zip', 'rate_limit', 'map', 'filter', 'partition', 'sliding_window',
                       'timed_window', 'union', 'accumulate', 'delay', 'partition_t', 'flatten', 'slice',
                       'zip_latest', 'combine_latest', 'collect', 'pluck'],
-                need=['buffer', 'map_async', 'zip'], modes=['async'], md=0.2, await_all=True,
+                need=['buffer', 'map_async', 'zip'], modes=['async', 'async', 'threaded'], md=0.2, await_all=True,
                 sinks=['native', 'tornado', 'future', 'sync']),
     'C04': dict(pool=SYNC_OPS + ASYNC_LOSSLESS + LOSSY, need=ASYNC_LOSSLESS + LOSSY + ['sink_async'],
                 modes=['async'], md=1.0, refs=True, sinks=['native', 'tornado', 'future', 'sync']),
@@ -85,7 +85,7 @@ PROFILES = {
                 modes=['async'], md=0.2, sinks=['sync', 'native', 'tornado', 'future'], bursts=True),
     'C14': dict(pool=['latest', 'map', 'filter', 'union'], need=['latest'], modes=['async'], md=0.4,
                 sinks=['native', 'tornado', 'future', 'sync'], bursts=True),
-    'C16': dict(pool=DIRECT_OPS + ['rate_limit'], modes=['loopless', 'async', 'async'], md=1.0, refs=True,
+    'C16': dict(pool=DIRECT_OPS + ['rate_limit'], modes=['loopless', 'async', 'async', 'threaded'], md=1.0, refs=True,
                 sinks=['sync', 'native', 'tornado', 'future']),
 }
 
@@ -394,6 +394,10 @@ class G:
         pool = list(pf['pool'])
         if mode == 'loopless':
             pool = [o for o in pool if o in SYNC_OPS and o != 'partition']
+        if mode == 'threaded':
+            # collect.flush() called from the caller thread while the loop thread runs the
+            # pipeline is a data race in the user's program, not a streamz schedule
+            pool = [o for o in pool if o != 'collect']
         # swarm: a random subset of the node kinds is enabled in this run
         enabled = [o for o in pool if self.chance(0.6)] or [self.pick(pool)]
         need = [o for o in pf.get('need', []) if o in pool and o != 'sink_async']
@@ -448,8 +452,36 @@ class G:
                 producers.append({'entry': e, 'await': aw, 'start': self.pick([0, 0, 0.25, 1]), 'items': items})
         if collects:
             producers[0]['items'].append({'gap': 0, 'flush': self.pick(collects)})
+        if mode == 'threaded':
+            for p in producers:
+                p['await'] = True          # a blocking emit always waits
+            from .build import needs_loop
+            # per connected pipeline: where nothing makes streamz create a loop, emit runs on the
+            # caller's stack and cannot wait for awaitables - like loop-less mode, synchronous sinks only
+            adj = {}
+            for n in self.graph:
+                for u in n.get('up', []):
+                    adj.setdefault(u, set()).add(n['id'])
+                    adj.setdefault(n['id'], set()).add(u)
+            seen = set()
+            for n0 in self.graph:
+                if n0['id'] in seen:
+                    continue
+                comp, todo = set(), [n0['id']]
+                while todo:
+                    x = todo.pop()
+                    if x in comp:
+                        continue
+                    comp.add(x)
+                    todo.extend(adj.get(x, ()))
+                seen |= comp
+                if not needs_loop([n for n in self.graph if n['id'] in comp and n['op'] != 'sink']):
+                    for n in self.graph:
+                        if n['id'] in comp and n['op'] == 'sink':
+                            n['kind'] = 'sync'
+                            n.pop('lat', None)
         sc = {'format': 1, 'family': 'pipeline', 'property': self.prop, 'seed': seed, 'index': index,
-              'mode': mode, 'tiebreak': self.pick(['fifo', 'fifo', 'lifo', 'seeded']),
+              'mode': mode, 'sched_seed': r.randrange(10000), 'tiebreak': self.pick(['fifo', 'fifo', 'lifo', 'seeded']),
               'tiebreak_seed': r.randrange(1000), 'graph': self.graph, 'producers': producers,
               'faults': {'stalls': [], 'fail': []}}
         return sc
